@@ -30,9 +30,21 @@ fn addrs(v: &[SocketAddrV4]) -> String {
     list(&a, |x| format!("({}, {})", x.0, x.1))
 }
 
-pub fn lookup_case(r: &mut Rng, n_real: usize, n_phantom: usize, is_find: bool) -> String {
+/// kind: 0 find_node, 1 get_peers (nobody has peers), 2 get_immutable where some peers hold the value,
+/// 3 get_peers where some peers hold peers
+pub fn lookup_case(r: &mut Rng, n_real: usize, n_phantom: usize, kind: u8) -> String {
+    let is_find = kind == 0;
     let mut s = Scn::new(r, n_real, false, Default::default());
-    let target = id20(r);
+    let value: Vec<u8> = format!("immutable value {}", r.below(1000)).into_bytes();
+    let target = if kind == 2 {
+        let mut b = format!("{}:", value.len()).into_bytes();
+        b.extend_from_slice(&value);
+        crate::c03::sha1(&b)
+    } else {
+        id20(r)
+    };
+    // which real peers hold the value / peers
+    let holds: Vec<bool> = (0..n_real).map(|_| kind >= 2 && r.chance(1, 3)).collect();
     // universe: real peers first, then phantoms around the target
     let mut u: Vec<UNode> = s.peers.iter().map(unode_of_peer).collect();
     let ph = gen_universe(r, n_phantom, &target, 4, &[160, 159, 158, 150, 100]);
@@ -53,10 +65,10 @@ pub fn lookup_case(r: &mut Rng, n_real: usize, n_phantom: usize, is_find: bool) 
         .collect();
     let tid_target = Id::from(target);
     let (tx, rx) = flume::unbounded();
-    let request = if is_find {
-        GetRequestSpecific::FindNode(FindNodeRequestArguments { target: tid_target })
-    } else {
-        GetRequestSpecific::GetPeers(GetPeersRequestArguments { info_hash: tid_target })
+    let request = match kind {
+        0 => GetRequestSpecific::FindNode(FindNodeRequestArguments { target: tid_target }),
+        2 => GetRequestSpecific::GetValue(GetValueRequestArguments { target: tid_target, seq: None, salt: None }),
+        _ => GetRequestSpecific::GetPeers(GetPeersRequestArguments { info_hash: tid_target }),
     };
     s.node.actor.verif_get(request, ResponseSender::ClosestNodes(tx));
     let st0 = match s.node.actor.verif_lookup(&tid_target) {
@@ -71,7 +83,8 @@ pub fn lookup_case(r: &mut Rng, n_real: usize, n_phantom: usize, is_find: bool) 
     let is_this = |m: &VMessage| -> bool {
         match as_request(m).map(|q| &q.request_type) {
             Some(RequestTypeSpecific::FindNode(a)) => is_find && a.target == tid_target,
-            Some(RequestTypeSpecific::GetPeers(a)) => !is_find && a.info_hash == tid_target,
+            Some(RequestTypeSpecific::GetPeers(a)) => (kind == 1 || kind == 3) && a.info_hash == tid_target,
+            Some(RequestTypeSpecific::GetValue(a)) => kind == 2 && a.target == tid_target,
             _ => false,
         }
     };
@@ -94,6 +107,20 @@ pub fn lookup_case(r: &mut Rng, n_real: usize, n_phantom: usize, is_find: bool) 
             let responder_id = Id::from(s.peers[p].id);
             let mt = if is_find {
                 MessageType::Response(ResponseSpecific::FindNode(FindNodeResponseArguments { responder_id, nodes: listed.clone().into() }))
+            } else if holds[p] && kind == 2 {
+                MessageType::Response(ResponseSpecific::GetImmutable(GetImmutableResponseArguments {
+                    responder_id,
+                    token: vec![1, 1, 1, 1].into(),
+                    nodes: Some(listed.clone().into()),
+                    v: value.clone().into(),
+                }))
+            } else if holds[p] && kind == 3 {
+                MessageType::Response(ResponseSpecific::GetPeers(GetPeersResponseArguments {
+                    responder_id,
+                    token: vec![1, 1, 1, 1].into(),
+                    nodes: Some(listed.clone().into()),
+                    values: vec![std::net::SocketAddrV4::new(std::net::Ipv4Addr::new(10, 1, 2, 3), 6881)],
+                }))
             } else {
                 MessageType::Response(ResponseSpecific::NoValues(NoValuesResponseArguments { responder_id, token: vec![1, 1, 1, 1].into(), nodes: Some(listed.clone().into()) }))
             };
@@ -111,10 +138,23 @@ pub fn lookup_case(r: &mut Rng, n_real: usize, n_phantom: usize, is_find: bool) 
         s.node.tick();
         match s.node.actor.verif_lookup(&tid_target) {
             Some(st) => {
-                ticks.push(format!("{{| t_resp := {}; t_closest := {}; t_responders := {}; t_visited := {} |}}", resp_desc, idxs(&st.0), idxs(&st.1), addrs(&st.2)));
+                ticks.push(format!("{{| t_resp := {}; t_closest := {}; t_responders := {}; t_visited := {}; t_seen := true |}}", resp_desc, idxs(&st.0), idxs(&st.1), addrs(&st.2)));
                 last_state = st;
             }
-            None => break,
+            None => {
+                // the lookup finished in this iteration: its final state is kept by a hook
+                match s.node.actor.verif_lookup_done(&tid_target) {
+                    Some(st) => ticks.push(format!(
+                        "{{| t_resp := {}; t_closest := {}; t_responders := {}; t_visited := {}; t_seen := true |}}",
+                        resp_desc,
+                        idxs(&st.0),
+                        idxs(&st.1),
+                        addrs(&st.2)
+                    )),
+                    None => ticks.push(format!("{{| t_resp := {}; t_closest := []; t_responders := []; t_visited := []; t_seen := false |}}", resp_desc)),
+                }
+                break;
+            }
         }
     }
     let _ = last_state;
@@ -139,8 +179,14 @@ pub fn generate(seed: u64, scale: usize) -> Cases {
     let scale = scale.max(1);
     for _ in 0..(3 * scale) {
         for (nr, np) in [(2usize, 0usize), (4, 6), (8, 12), (15, 25), (25, 10)] {
-            let f = r.chance(1, 2);
-            cases.push(&format!("real{}_phantom{}", nr, np), lookup_case(&mut r, nr, np, f));
+            let kind = r.below(4) as u8;
+            cases.push(&format!("real{}_phantom{}_{}", nr, np, ["find_node", "get_peers_empty", "get_immutable_held", "get_peers_held"][kind as usize]), lookup_case(&mut r, nr, np, kind));
+        }
+    }
+    // value-bearing lookups in networks larger than K, where the value arrives while close candidates are unvisited
+    for _ in 0..(2 * scale) {
+        for kind in [2u8, 3u8] {
+            cases.push(&format!("real25_phantom10_{}", ["", "", "get_immutable_held", "get_peers_held"][kind as usize]), lookup_case(&mut r, 25, 10, kind));
         }
     }
     let _ = Ipv4Addr::LOCALHOST;
